@@ -1,1 +1,926 @@
-(* Proofs/CleanFacts.v -- lemmas; see DESIGN.md section 7 *)
+(* Proofs/CleanFacts.v -- properties C01 and C04: the text of a doccomment reaches the entry
+   and the rendered paragraph line for line; re-indentation does not matter; UTF-8 round trip. *)
+From Coq Require Import String List NArith ZArith Bool Arith Lia ZifyBool ZifyN.
+From CMinx Require Import Base.Str Model.Lexer Model.Parser Model.Writer Model.DocTypes
+     Model.Aggregator Model.Pipeline.
+Import ListNotations.
+
+(* ---- spec ---- *)
+
+Definition is_sptab' (c : char) : bool := (c =? 32)%N || (c =? 9)%N.
+
+Definition doc_open_line : str := s"#[[[".
+Definition doc_close_line : str := s"#]]".
+
+(* a doccomment line with the leader: the hash alone for an empty line, else hash, space, text *)
+Definition leader_line (l : str) : str :=
+  match l with [] => [hash] | _ :: _ => hash :: sp :: l end.
+
+(* the lines of a Docstring token: the token starts at the hash of the opening line; the
+   following lines carry the block indentation ind *)
+Definition canon_lines (ind : str) (L : list str) : list str :=
+  doc_open_line :: map (fun l => ind ++ leader_line l) L ++ [ind ++ doc_close_line].
+
+(* the expected documentation text: every line followed by a line break *)
+Definition doc_of_lines (L : list str) : str :=
+  match L with [] => [] | _ :: _ => join [nl] L ++ [nl] end.
+
+(* a line without leader that the cleaning leaves alone: empty, or not starting with
+   hash, bracket or space *)
+Definition plain_line (l : str) : bool :=
+  match l with [] => true | a :: _ => negb (mem a [hash; lbr; rbr; sp]) end.
+
+Definition entry_doc (e : entry) : str :=
+  match e with
+  | EFunction _ _ d _ _ => d
+  | EVariable _ d _ _ => d
+  | EOption _ d _ _ => d
+  | EGeneric _ d _ => d
+  | ECTest _ d _ => d
+  | ETest _ _ d _ _ _ => d
+  | EClass _ d _ _ _ _ _ => d
+  | EModule _ d => d
+  end.
+
+(* the texts of the direct Para children *)
+Definition direct_paras (body : list elem) : list str :=
+  flat_map (fun x => match x with Para t => [t] | _ => [] end) body.
+
+Definition dir_body (e : elem) : list elem :=
+  match e with Dir _ _ _ b => b | _ => [] end.
+
+(* the direct paragraphs of a rendered entry, per constructor *)
+Definition expected_paras (e : entry) : list str :=
+  match e with
+  | EClass _ d supers inner ctors members attrs =>
+      (match supers with
+       | [] => []
+       | _ :: _ => [s"Bases: " ++ join (s", ") (map (fun x => s":class:`" ++ x ++ s"`") supers) ++ [nl]]
+       end)
+      ++ [d]
+      ++ (match ctors with [] => [] | _ :: _ => [s"**Additional Constructors**"] end)
+      ++ (match members with [] => [] | _ :: _ => [s"**Methods**"] end)
+      ++ (match attrs with [] => [] | _ :: _ => [s"**Attributes**"] end)
+      ++ (match inner with [] => [] | _ :: _ => [s"**Inner classes**"] end)
+  | EModule _ [] => []
+  | _ => [entry_doc e]
+  end.
+
+Definition last_doc (l : list entry) : option str := option_map entry_doc (last_opt l).
+
+(* ---- helpers ---- *)
+
+Lemma last_opt_app1 : forall (A : Type) (l : list A) (x : A), last_opt (l ++ [x]) = Some x.
+Proof.
+  intros A l x. induction l as [|a l IH]; [reflexivity|].
+  cbn [app last_opt]. destruct (l ++ [x]) eqn:E.
+  - destruct l; discriminate E.
+  - exact IH.
+Qed.
+
+Lemma update_last_app1 : forall (A : Type) (f : A -> A) (l : list A) (x : A),
+  update_last f (l ++ [x]) = l ++ [f x].
+Proof.
+  intros A f l x. unfold update_last. rewrite rev_app_distr. cbn [rev app].
+  rewrite rev_involutive. reflexivity.
+Qed.
+
+Lemma skipn_app_exact : forall (A : Type) (x y : list A), skipn (length x) (x ++ y) = y.
+Proof. intros A x y. induction x as [|a x IH]; [reflexivity|]. exact IH. Qed.
+
+Lemma join_cons2 : forall sep (x y : str) r, join sep (x :: y :: r) = x ++ sep ++ join sep (y :: r).
+Proof. reflexivity. Qed.
+
+Lemma join_snoc : forall sep (L : list str) x,
+  L <> [] -> join sep (L ++ [x]) = join sep L ++ sep ++ x.
+Proof.
+  intros sep L x. induction L as [|a L IH]; intros H; [contradiction H; reflexivity|].
+  destruct L as [|b L'].
+  - reflexivity.
+  - change ((a :: b :: L') ++ [x]) with (a :: (b :: L') ++ [x]).
+    change ((b :: L') ++ [x]) with (b :: L' ++ [x]) at 1.
+    rewrite join_cons2. change (b :: L' ++ [x]) with ((b :: L') ++ [x]).
+    rewrite IH by discriminate. rewrite join_cons2. rewrite <- !app_assoc. reflexivity.
+Qed.
+
+Lemma join_lines_snoc_empty : forall L : list str,
+  join [nl] (L ++ [[]]) = doc_of_lines L.
+Proof.
+  intros [|a L]; [reflexivity|].
+  rewrite join_snoc by discriminate. unfold doc_of_lines. rewrite app_nil_r. reflexivity.
+Qed.
+
+Lemma split_on_nonempty : forall c x, split_on c x <> [].
+Proof.
+  intros c x. destruct x as [|a r]; cbn [split_on]; [discriminate|].
+  destruct (a =? c)%N; [discriminate|]. destruct (split_on c r); discriminate.
+Qed.
+
+Lemma split_on_app_sep : forall c x y,
+  split_on c (x ++ c :: y) = split_on c x ++ split_on c y.
+Proof.
+  intros c x y. induction x as [|a x IH].
+  - cbn [app split_on]. rewrite N.eqb_refl. reflexivity.
+  - cbn [app split_on]. destruct (a =? c)%N.
+    + rewrite IH. reflexivity.
+    + rewrite IH. destruct (split_on c x) as [|h t] eqn:E.
+      * exfalso. exact (split_on_nonempty c x E).
+      * reflexivity.
+Qed.
+
+Lemma split_on_free : forall c x, ~ In c x -> split_on c x = [x].
+Proof.
+  intros c x. induction x as [|a x IH]; intros H; [reflexivity|].
+  cbn [split_on]. destruct (N.eqb_spec a c) as [E|E].
+  - exfalso. apply H. left. exact E.
+  - rewrite IH; [reflexivity|]. intros Hin. apply H. right. exact Hin.
+Qed.
+
+Lemma split_on_join : forall c ls,
+  ls <> [] -> Forall (fun l => ~ In c l) ls -> split_on c (join [c] ls) = ls.
+Proof.
+  intros c ls. induction ls as [|l ls IH]; intros Hne HF; [contradiction Hne; reflexivity|].
+  inversion HF as [|l' ls' Hl HF']; subst.
+  destruct ls as [|l2 ls2].
+  - cbn [join]. apply split_on_free. exact Hl.
+  - change (join [c] (l :: l2 :: ls2)) with (l ++ c :: join [c] (l2 :: ls2)).
+    rewrite split_on_app_sep. rewrite (split_on_free c l Hl).
+    rewrite IH; [reflexivity|discriminate|exact HF'].
+Qed.
+
+(* the pieces of a split do not contain the separator *)
+Lemma split_on_pieces_free : forall c x, Forall (fun l => ~ In c l) (split_on c x).
+Proof.
+  intros c x. induction x as [|a x IH].
+  - constructor; [intros []|constructor].
+  - cbn [split_on]. destruct (N.eqb_spec a c) as [E|E].
+    + constructor; [intros []|exact IH].
+    + destruct (split_on c x) as [|h t]; [constructor; [|constructor]|].
+      * intros [H|[]]. exact (E H).
+      * inversion IH as [|h' t' Hh Ht]; subst. constructor; [|exact Ht].
+        intros [H|H]; [exact (E H)|exact (Hh H)].
+Qed.
+
+Lemma sptab_not_in : forall (c : char) ind,
+  is_sptab' c = false -> forallb is_sptab' ind = true -> ~ In c ind.
+Proof.
+  intros c ind Hc. induction ind as [|a ind IH]; intros H; [intros []|].
+  cbn [forallb] in H. apply andb_prop in H. destruct H as [H1 H2].
+  intros [E|Hin]; [subst a; rewrite Hc in H1; discriminate H1|exact (IH H2 Hin)].
+Qed.
+
+Lemma take_while_prefix : forall (p : char -> bool) x a r,
+  forallb p x = true -> p a = false -> take_while p (x ++ a :: r) = x.
+Proof.
+  intros p x a r. induction x as [|b x IH]; intros H Ha.
+  - cbn [app take_while]. rewrite Ha. reflexivity.
+  - cbn [forallb] in H. apply andb_prop in H. destruct H as [H1 H2].
+    cbn [app take_while]. rewrite H1, (IH H2 Ha). reflexivity.
+Qed.
+
+Lemma sptab_not_hash : forall ind, forallb is_sptab' ind = true ->
+  forallb (fun c => negb (c =? 35)%N) ind = true.
+Proof.
+  induction ind as [|a ind IH]; intros H; [reflexivity|].
+  cbn [forallb] in H |- *. apply andb_prop in H. destruct H as [H1 H2].
+  rewrite (IH H2), andb_true_r. unfold is_sptab' in H1.
+  destruct (N.eqb_spec a 35) as [E|E]; [subst a; discriminate H1|reflexivity].
+Qed.
+
+(* ---- E1: the canonical block ---- *)
+
+Lemma clean_line_open : forall n, clean_line n doc_open_line = [].
+Proof. intros n. destruct n as [|[|[|[|[|n]]]]]; reflexivity. Qed.
+
+Lemma clean_line_close : forall ind, clean_line (length ind) (ind ++ doc_close_line) = [].
+Proof. intros ind. unfold clean_line. rewrite skipn_app_exact. reflexivity. Qed.
+
+(* every line content comes back unchanged *)
+Lemma clean_line_leader : forall ind l, clean_line (length ind) (ind ++ leader_line l) = l.
+Proof.
+  intros ind l. unfold clean_line. rewrite skipn_app_exact.
+  destruct l as [|a r]; reflexivity.
+Qed.
+
+(* a block whose opening line is arbitrary: used for the command and the module form *)
+Lemma clean_doc_lines_frame : forall first ind L,
+  forallb is_sptab' ind = true ->
+  clean_doc_lines (first :: map (fun l => ind ++ leader_line l) L ++ [ind ++ doc_close_line])
+  = let doc := join [nl] (clean_line (length ind) first :: L ++ [[]]) in
+    match doc with
+    | a :: r => if (a =? 10)%N then r else doc
+    | [] => []
+    end.
+Proof.
+  intros first ind L Hind. unfold clean_doc_lines.
+  change (first :: map (fun l => ind ++ leader_line l) L ++ [ind ++ doc_close_line])
+    with ((first :: map (fun l => ind ++ leader_line l) L) ++ [ind ++ doc_close_line]).
+  rewrite last_opt_app1.
+  set (n := length (take_while _ (ind ++ doc_close_line))).
+  assert (Hn : n = length ind).
+  { unfold n. f_equal. change doc_close_line with (35%N :: s"]]").
+    apply take_while_prefix; [apply sptab_not_hash; exact Hind|reflexivity]. }
+  clearbody n. subst n.
+  rewrite map_app. cbn [map]. rewrite clean_line_close.
+  change (clean_line (length ind) first
+          :: map (clean_line (length ind)) (map (fun l => ind ++ leader_line l) L) ++ [[]])
+    with ((clean_line (length ind) first
+          :: map (clean_line (length ind)) (map (fun l => ind ++ leader_line l) L)) ++ [[]]).
+  rewrite update_last_app1. rewrite map_map.
+  rewrite (map_ext (fun l => clean_line (length ind) (ind ++ leader_line l)) (fun l => l)
+             (clean_line_leader ind)).
+  rewrite map_id. reflexivity.
+Qed.
+
+Theorem clean_canonical : forall ind L,
+  forallb is_sptab' ind = true ->
+  clean_doc_lines (canon_lines ind L)
+  = match L with [] => [] | _ :: _ => join [nl] L ++ [nl] end.
+Proof.
+  intros ind L Hind. unfold canon_lines. rewrite (clean_doc_lines_frame _ ind L Hind).
+  rewrite clean_line_open. cbv zeta.
+  change ([] :: L ++ [[]]) with ([] :: (L ++ [[]])).
+  destruct (L ++ [[]]) as [|x r] eqn:E; [destruct L; discriminate E|].
+  rewrite join_cons2. cbn [app]. change (nl =? 10)%N with true. cbn iota.
+  rewrite <- E. apply join_lines_snoc_empty.
+Qed.
+
+Definition nasty_lines : list str :=
+  [s"#x"; s"]]"; s"  indented"; []; s"[["; [233; 8364; 128512]%N; [sp]; tab :: s"t"; s"# y"; s"end."].
+
+Example clean_canonical_nonvacuous :
+  forallb is_sptab' (s"  ") = true /\ forallb is_sptab' [tab] = true
+  /\ clean_doc_lines (canon_lines (s"  ") nasty_lines) = join [nl] nasty_lines ++ [nl]
+  /\ clean_doc_lines (canon_lines [tab] nasty_lines) = join [nl] nasty_lines ++ [nl]
+  /\ nth 2 (canon_lines (s"  ") nasty_lines) [] = s"  # ]]"
+  /\ nth 4 (canon_lines [tab] nasty_lines) [] = [tab; hash].
+Proof. vm_compute. repeat split. Qed.
+
+(* ---- E2: through clean_doc_text on the token text ---- *)
+
+Lemma leader_line_free : forall l, ~ In nl l -> ~ In nl (leader_line l).
+Proof.
+  intros [|a r] H; cbn [leader_line]; intros Hin.
+  - destruct Hin as [E|[]]. discriminate E.
+  - destruct Hin as [E|[E|Hin]]; [discriminate E|discriminate E|exact (H Hin)].
+Qed.
+
+Lemma not_in_app : forall (c : char) x y, ~ In c x -> ~ In c y -> ~ In c (x ++ y).
+Proof. intros c x y Hx Hy Hin. apply in_app_or in Hin. destruct Hin; auto. Qed.
+
+Lemma canon_lines_free : forall ind L,
+  forallb is_sptab' ind = true -> Forall (fun l => ~ In nl l) L ->
+  Forall (fun l => ~ In nl l) (canon_lines ind L).
+Proof.
+  intros ind L Hind HL. pose proof (sptab_not_in nl ind eq_refl Hind) as Hi.
+  unfold canon_lines. constructor.
+  - vm_compute. intros H. repeat (destruct H as [H|H]; [discriminate H|]). exact H.
+  - apply Forall_app. split.
+    + induction HL as [|l L' Hl HL' IH]; [constructor|]. cbn [map]. constructor; [|exact IH].
+      apply not_in_app; [exact Hi|apply leader_line_free; exact Hl].
+    + constructor; [|constructor]. apply not_in_app; [exact Hi|].
+      vm_compute. intros H. repeat (destruct H as [H|H]; [discriminate H|]). exact H.
+Qed.
+
+Theorem clean_text_canonical : forall ind L,
+  forallb is_sptab' ind = true -> Forall (fun l => ~ In nl l) L ->
+  clean_doc_text (join [nl] (canon_lines ind L))
+  = match L with [] => [] | _ :: _ => join [nl] L ++ [nl] end.
+Proof.
+  intros ind L Hind HL. unfold clean_doc_text.
+  rewrite split_on_join; [apply clean_canonical; exact Hind|discriminate|].
+  apply canon_lines_free; assumption.
+Qed.
+
+Example clean_text_canonical_nonvacuous :
+  Forall (fun l => ~ In nl l) [s"a"; []; s"  b"]
+  /\ join [nl] (canon_lines (s" ") [s"a"; []; s"  b"])
+     = s"#[[[" ++ [nl] ++ s" # a" ++ [nl] ++ s" #" ++ [nl] ++ s" #   b" ++ [nl] ++ s" #]]"
+  /\ clean_doc_text (join [nl] (canon_lines (s" ") [s"a"; []; s"  b"]))
+     = s"a" ++ [nl] ++ [nl] ++ s"  b" ++ [nl].
+Proof.
+  split; [|vm_compute; split; reflexivity].
+  repeat constructor; vm_compute; intros H;
+    repeat (destruct H as [H|H]; [discriminate H|]); exact H.
+Qed.
+
+(* ---- E3: property C04, uniform re-indentation ---- *)
+
+Theorem reindent_invariance : forall ind1 ind2 L,
+  forallb is_sptab' ind1 = true -> forallb is_sptab' ind2 = true ->
+  clean_doc_lines (canon_lines ind1 L) = clean_doc_lines (canon_lines ind2 L).
+Proof.
+  intros ind1 ind2 L H1 H2. rewrite (clean_canonical ind1 L H1), (clean_canonical ind2 L H2).
+  reflexivity.
+Qed.
+
+Theorem reindent_invariance_text : forall ind1 ind2 L,
+  forallb is_sptab' ind1 = true -> forallb is_sptab' ind2 = true ->
+  Forall (fun l => ~ In nl l) L ->
+  clean_doc_text (join [nl] (canon_lines ind1 L)) = clean_doc_text (join [nl] (canon_lines ind2 L)).
+Proof.
+  intros ind1 ind2 L H1 H2 HL.
+  rewrite (clean_text_canonical ind1 L H1 HL), (clean_text_canonical ind2 L H2 HL). reflexivity.
+Qed.
+
+(* ---- E4: lines without the leader ---- *)
+
+Lemma clean_line_plain : forall l, plain_line l = true -> clean_line 0 l = l.
+Proof.
+  intros [|a r] H; [reflexivity|]. unfold plain_line in H. cbn [mem] in H.
+  unfold clean_line. cbn [skipn]. unfold lstrip_set, doc_lstrip_set. cbn [drop_while mem].
+  rewrite !negb_orb in H. apply andb_prop in H. destruct H as [H1 H].
+  apply andb_prop in H. destruct H as [H2 H]. apply andb_prop in H. destruct H as [H3 H].
+  apply andb_prop in H. destruct H as [H4 _].
+  apply negb_true_iff in H1, H2, H3, H4. rewrite H1, H2, H3. cbn [orb].
+  change 32%N with sp. rewrite H4. reflexivity.
+Qed.
+
+Theorem clean_leaderless : forall L,
+  L <> [] -> forallb plain_line L = true ->
+  clean_doc_lines (doc_open_line :: L ++ [doc_close_line]) = join [nl] L ++ [nl].
+Proof.
+  intros L Hne HL. unfold clean_doc_lines.
+  change (doc_open_line :: L ++ [doc_close_line]) with ((doc_open_line :: L) ++ [doc_close_line]).
+  rewrite last_opt_app1. change (length (take_while _ doc_close_line)) with 0.
+  rewrite map_app. cbn [map]. change (clean_line 0 doc_open_line) with (@nil char).
+  change (clean_line 0 doc_close_line) with (@nil char).
+  change ([] :: map (clean_line 0) L ++ [[]]) with (([] :: map (clean_line 0) L) ++ [[]]).
+  rewrite update_last_app1.
+  assert (Hm : map (clean_line 0) L = L).
+  { clear Hne. induction L as [|l L IH]; [reflexivity|].
+    cbn [forallb] in HL. apply andb_prop in HL. destruct HL as [H1 H2].
+    cbn [map]. rewrite (clean_line_plain l H1), (IH H2). reflexivity. }
+  rewrite Hm. change (rstrip_set doc_rstrip_set []) with (@nil char).
+  change (([] :: L) ++ [[]]) with ([] :: (L ++ [[]])).
+  destruct (L ++ [[]]) as [|x r] eqn:E; [destruct L; discriminate E|].
+  rewrite join_cons2. cbn [app]. change (nl =? 10)%N with true. cbn iota.
+  rewrite <- E. rewrite join_lines_snoc_empty. destruct L; [contradiction Hne|]; reflexivity.
+Qed.
+
+Example clean_leaderless_nonvacuous :
+  forallb plain_line [s"Text."; []; s"x [y] # z"; tab :: s"t"] = true
+  /\ clean_doc_lines (doc_open_line :: [s"Text."; []; s"x [y] # z"; tab :: s"t"] ++ [doc_close_line])
+     = join [nl] [s"Text."; []; s"x [y] # z"; tab :: s"t"] ++ [nl].
+Proof. vm_compute. split; reflexivity. Qed.
+
+(* without the leader the cleaning is not the identity: one leading space is taken from a
+   line (so relative indentation between leaderless lines is not kept), and leading
+   hash and bracket characters are taken *)
+Example clean_leaderless_refuted :
+  clean_doc_lines (doc_open_line :: [s"a"; s" b"; s"#c"; s"[d]"] ++ [doc_close_line])
+  = join [nl] [s"a"; s"b"; s"c"; s"d]"] ++ [nl].
+Proof. vm_compute. reflexivity. Qed.
+
+(* ---- E6: the doc text sits once among the direct children of the entry directive ---- *)
+
+Lemma direct_paras_app : forall a b, direct_paras (a ++ b) = direct_paras a ++ direct_paras b.
+Proof. intros a b. unfold direct_paras. apply flat_map_app. Qed.
+
+Lemma direct_paras_methods : forall l, direct_paras (map render_method l) = [].
+Proof. induction l as [|m l IH]; [reflexivity|exact IH]. Qed.
+
+Lemma direct_paras_attrs : forall l, direct_paras (map render_attribute l) = [].
+Proof. induction l as [|m l IH]; [reflexivity|exact IH]. Qed.
+
+Theorem doc_in_entry_once : forall e,
+  direct_paras (dir_body (render_entry e)) = expected_paras e.
+Proof.
+  intros e. destruct e as [mac n d ps kw|n d ty v|n d v h|n d ps|n d ps|sec n d xf ps mac
+                          |n d su inner ct me at_|n d].
+  - cbn [render_entry dir_body]. destruct mac; reflexivity.
+  - reflexivity.
+  - reflexivity.
+  - reflexivity.
+  - reflexivity.
+  - reflexivity.
+  - cbn [render_entry dir_body expected_paras]. rewrite !direct_paras_app.
+    f_equal; [destruct su; reflexivity|].
+    f_equal. f_equal; [destruct ct as [|c0 ct']; [reflexivity|]|].
+    { change (direct_paras (Para (s"**Additional Constructors**") :: map render_method (c0 :: ct')))
+        with (s"**Additional Constructors**" :: direct_paras (map render_method (c0 :: ct'))).
+      rewrite direct_paras_methods. reflexivity. }
+    f_equal; [destruct me as [|m0 me']; [reflexivity|]|].
+    { change (direct_paras (Para (s"**Methods**") :: map render_method (m0 :: me')))
+        with (s"**Methods**" :: direct_paras (map render_method (m0 :: me'))).
+      rewrite direct_paras_methods. reflexivity. }
+    f_equal; [destruct at_ as [|a0 at']; [reflexivity|]|].
+    { change (direct_paras (Para (s"**Attributes**") :: map render_attribute (a0 :: at')))
+        with (s"**Attributes**" :: direct_paras (map render_attribute (a0 :: at'))).
+      rewrite direct_paras_attrs. reflexivity. }
+    destruct inner; reflexivity.
+  - destruct d; reflexivity.
+Qed.
+
+(* for every constructor except a class: exactly the doc text, once (none for a module
+   entry without text) *)
+Corollary doc_in_entry_once_simple : forall e,
+  (match e with EClass _ _ _ _ _ _ _ => false | _ => true end) = true ->
+  direct_paras (dir_body (render_entry e))
+  = match entry_doc e with [] => (match e with EModule _ _ => [] | _ => [[]] end) | d => [d] end.
+Proof.
+  intros e H. rewrite doc_in_entry_once. destruct e; try discriminate H;
+    cbn [expected_paras entry_doc]; try (destruct doc; reflexivity).
+Qed.
+
+Lemma in_direct_paras : forall t body, In t (direct_paras body) -> In (Para t) body.
+Proof.
+  intros t body. induction body as [|x body IH]; intros H; [exact H|].
+  unfold direct_paras in H. cbn [flat_map] in H. apply in_app_or in H. destruct H as [H|H].
+  - destruct x; try contradiction H. destruct H as [E|[]]. subst. left. reflexivity.
+  - right. apply IH. exact H.
+Qed.
+
+Theorem para_in_body : forall e, entry_doc e <> [] ->
+  In (Para (entry_doc e)) (dir_body (render_entry e)).
+Proof.
+  intros e H. apply in_direct_paras. rewrite doc_in_entry_once.
+  destruct e; cbn [expected_paras entry_doc] in *; try (left; reflexivity).
+  - apply in_or_app. right. left. reflexivity.
+  - destruct doc; [contradiction H; reflexivity|left; reflexivity].
+Qed.
+
+(* a direct child is rendered one level deeper, followed by a line break, inside the text
+   of the directive *)
+Theorem child_text_in_dir : forall hdrs lvl d name args opts body x,
+  In x body ->
+  exists pre post,
+    elem_text hdrs lvl d (Dir name args opts body)
+    = pre ++ elem_text hdrs 0 (S d) x ++ [nl] ++ post.
+Proof.
+  intros hdrs lvl d name args opts body x Hin.
+  apply in_split in Hin. destruct Hin as [b1 [b2 E]]. subst body.
+  cbn [elem_text]. rewrite map_app, concat_app. cbn [map concat].
+  exists (dir_heading d name args ++ [nl]
+          ++ concat (map (fun o => option_text (S d) o ++ [nl]) opts)
+          ++ (match b1 ++ x :: b2 with [] => [] | _ :: _ => [nl] end)
+          ++ concat (map (fun y => elem_text hdrs 0 (S d) y ++ [nl]) b1)).
+  exists (concat (map (fun y => elem_text hdrs 0 (S d) y ++ [nl]) b2)).
+  rewrite <- !app_assoc. reflexivity.
+Qed.
+
+(* Paragraph: the lines of the text, each behind the indentation *)
+Lemma spaces_free : forall n, ~ In nl (spaces n).
+Proof.
+  induction n as [|n IH]; [intros []|]. intros [E|H]; [discriminate E|exact (IH H)].
+Qed.
+
+Theorem para_text_lines : forall d t,
+  split_on nl (para_text d t) = map (fun l => indent d ++ l) (split_on nl t).
+Proof.
+  intros d t. unfold para_text. apply split_on_join.
+  - destruct (split_on nl t) eqn:E; [destruct (split_on_nonempty nl t E)|discriminate].
+  - pose proof (split_on_pieces_free nl t) as HF. induction HF as [|l ls Hl HF IH]; [constructor|].
+    cbn [map]. constructor; [|exact IH]. apply not_in_app; [apply spaces_free|exact Hl].
+Qed.
+
+(* ---- enter_documented records the cleaned doccomment text ---- *)
+
+Lemma last_doc_snoc : forall l e, last_doc (l ++ [e]) = Some (entry_doc e).
+Proof. intros l e. unfold last_doc. rewrite last_opt_app1. reflexivity. Qed.
+
+Lemma update_nth_length : forall (A : Type) (f : A -> A) l i, length (update_nth i f l) = length l.
+Proof.
+  intros A f l. induction l as [|x l IH]; intros i; [destruct i; reflexivity|].
+  destruct i; cbn [update_nth length]; [reflexivity|]. rewrite IH. reflexivity.
+Qed.
+
+Lemma last_doc_update_nth : forall f l i,
+  (forall e, entry_doc (f e) = entry_doc e) -> last_doc (update_nth i f l) = last_doc l.
+Proof.
+  intros f l. induction l as [|x l IH]; intros i Hf; [destruct i; reflexivity|].
+  destruct i as [|i].
+  - cbn [update_nth]. unfold last_doc. destruct l; [cbn; rewrite Hf; reflexivity|reflexivity].
+  - cbn [update_nth]. specialize (IH i Hf). unfold last_doc in *.
+    destruct l as [|y l']; [destruct i; reflexivity|].
+    assert (Hne : update_nth i f (y :: l') <> []).
+    { intros E. apply (f_equal (@length entry)) in E. rewrite update_nth_length in E. discriminate E. }
+    destruct (update_nth i f (y :: l')) as [|z r] eqn:E; [contradiction Hne; reflexivity|].
+    exact IH.
+Qed.
+
+Lemma add_inner_doc : forall n e, entry_doc (add_inner n e) = entry_doc e.
+Proof. intros n e. destruct e; reflexivity. Qed.
+
+(* the outcome of one handler: either the list keeps its length, or it grew by one and the
+   newest entry carries doc *)
+Definition records (doc : str) (st st' : agg) : Prop :=
+  length (documented st') = length (documented st)
+  \/ last_doc (documented st') = Some doc.
+
+Lemma records_same : forall doc st, records doc st st.
+Proof. intros. left. reflexivity. Qed.
+
+Lemma records_append : forall e docd st doc, entry_doc e = doc -> records doc st (append e docd st).
+Proof. intros e docd st doc H. right. cbn [append documented]. rewrite last_doc_snoc, H. reflexivity. Qed.
+
+Lemma records_update : forall doc st i f,
+  records doc st (with_docs (update_nth i f) st).
+Proof. intros. left. cbn [with_docs documented]. apply update_nth_length. Qed.
+
+Lemma run_handler_records : forall trigger sfn smac h c doc docd st st',
+  run_handler trigger sfn smac h c doc docd st = Ok st' -> records doc st st'.
+Proof.
+  intros trigger sfn smac h c doc docd st st' H. destruct h; cbn [run_handler] in H.
+  - unfold process_def in H. destruct (singles c) as [|n ps]; [discriminate H|].
+    injection H as <-. right. cbn [with_def_stack append documented]. apply last_doc_snoc.
+  - unfold process_def in H. destruct (singles c) as [|n ps]; [discriminate H|].
+    injection H as <-. right. cbn [with_def_stack append documented]. apply last_doc_snoc.
+  - injection H as <-. unfold process_cpa. destruct (def_stack st) as [|[idx|] ds];
+      [apply records_same|apply records_update|apply records_same].
+  - injection H as <-. unfold process_test. destruct (length (singles c) <? 2); [apply records_same|].
+    destruct (scan_name (singles c) []); [|apply records_same].
+    right. cbn [with_awaiting append documented]. apply last_doc_snoc.
+  - injection H as <-. unfold process_test. destruct (length (singles c) <? 2); [apply records_same|].
+    destruct (scan_name (singles c) []); [|apply records_same].
+    right. cbn [with_awaiting append documented]. apply last_doc_snoc.
+  - unfold process_set in H. destruct (singles c) as [|n [|v [|w vals]]].
+    + injection H as <-. apply records_same.
+    + injection H as <-. apply records_append. reflexivity.
+    + destruct (unquote v); [|discriminate H]. injection H as <-. apply records_append. reflexivity.
+    + injection H as <-. apply records_append. reflexivity.
+  - injection H as <-. unfold process_class. destruct (singles c) as [|n su]; [apply records_same|].
+    right. destruct (class_stack st) as [|[cidx|] cs];
+      cbn [with_class_stack with_docs append documented].
+    + apply last_doc_snoc.
+    + rewrite last_doc_update_nth by apply add_inner_doc. apply last_doc_snoc.
+    + apply last_doc_snoc.
+  - injection H as <-. unfold process_member. destruct (length (singles c) <? 2); [apply records_same|].
+    destruct (class_stack st) as [|[cidx|] cs]; [apply records_same| |apply records_same].
+    left. cbn [with_awaiting with_docs documented]. apply update_nth_length.
+  - injection H as <-. unfold process_member. destruct (length (singles c) <? 2); [apply records_same|].
+    destruct (class_stack st) as [|[cidx|] cs]; [apply records_same| |apply records_same].
+    left. cbn [with_awaiting with_docs documented]. apply update_nth_length.
+  - injection H as <-. unfold process_attr. destruct (length (singles c) <? 2); [apply records_same|].
+    destruct (class_stack st) as [|[cidx|] cs]; [apply records_same| |apply records_same].
+    apply records_update.
+  - injection H as <-. unfold process_add_test. destruct (length (singles c) <? 2); [apply records_same|].
+    destruct (scan_name_idx (singles c) 0 (None, [])) as [[idx n]|]; [|apply records_same].
+    apply records_append. reflexivity.
+  - injection H as <-. unfold process_option.
+    destruct (singles c) as [|a [|b [|v [|w r]]]]; try apply records_same;
+      apply records_append; reflexivity.
+Qed.
+
+Theorem enter_documented_doc : forall trigger sfn smac d c st st',
+  enter_documented trigger sfn smac d c st = Ok st' ->
+  length (documented st') <> length (documented st) ->
+  exists e, last_opt (documented st') = Some e /\ entry_doc e = clean_doc_text d.
+Proof.
+  intros trigger sfn smac d c st st' H Hlen. unfold enter_documented in H.
+  assert (R : records (clean_doc_text d) st st').
+  { destruct (lookup (lower_ascii (c_name c)) handler_table) as [h|].
+    - exact (run_handler_records _ _ _ _ _ _ _ _ _ H).
+    - injection H as <-. unfold process_generic. apply records_append. reflexivity. }
+  destruct R as [R|R]; [contradiction (Hlen R)|].
+  unfold last_doc in R. destruct (last_opt (documented st')) as [e|]; [|discriminate R].
+  exists e. split; [reflexivity|]. injection R as R. exact R.
+Qed.
+
+(* members and attributes: the text is stored in m_doc / a_doc of the new last member *)
+Lemma nth_error_update_nth : forall (A : Type) (f : A -> A) l i x,
+  nth_error l i = Some x -> nth_error (update_nth i f l) i = Some (f x).
+Proof.
+  intros A f l. induction l as [|y l IH]; intros i x H; [destruct i; discriminate H|].
+  destruct i as [|i]; cbn [nth_error update_nth] in *; [injection H as ->; reflexivity|].
+  apply IH. exact H.
+Qed.
+
+Theorem process_member_doc : forall is_ctor c doc docd st cidx cs n d su inner ct me at_,
+  2 <= length (singles c) -> class_stack st = Some cidx :: cs ->
+  nth_error (documented st) cidx = Some (EClass n d su inner ct me at_) ->
+  exists m, m_doc m = doc /\
+    nth_error (documented (process_member is_ctor c doc docd st)) cidx
+    = Some (if is_ctor then EClass n d su inner (ct ++ [m]) me at_
+            else EClass n d su inner ct (me ++ [m]) at_).
+Proof.
+  intros is_ctor c doc docd st cidx cs n d su inner ct me at_ Hlen Hcs Hnth.
+  unfold process_member. destruct (Nat.ltb_spec (length (singles c)) 2) as [Hlt|_]; [lia|].
+  rewrite Hcs. cbn [with_awaiting with_docs documented].
+  eexists. split; [|rewrite (nth_error_update_nth _ _ _ _ _ Hnth); cbn [add_method]; destruct is_ctor; reflexivity].
+  reflexivity.
+Qed.
+
+Theorem process_attr_doc : forall c doc docd st cidx cs n d su inner ct me at_,
+  2 <= length (singles c) -> class_stack st = Some cidx :: cs ->
+  nth_error (documented st) cidx = Some (EClass n d su inner ct me at_) ->
+  exists a, a_doc a = doc /\
+    nth_error (documented (process_attr c doc docd st)) cidx
+    = Some (EClass n d su inner ct me (at_ ++ [a])).
+Proof.
+  intros c doc docd st cidx cs n d su inner ct me at_ Hlen Hcs Hnth.
+  unfold process_attr. destruct (Nat.ltb_spec (length (singles c)) 2) as [Hlt|_]; [lia|].
+  rewrite Hcs. cbn [with_docs documented].
+  eexists. split; [|rewrite (nth_error_update_nth _ _ _ _ _ Hnth); cbn [add_attr]; reflexivity].
+  reflexivity.
+Qed.
+
+(* C01 for a documented command with a canonical doccomment: the entry's doc is the lines,
+   and its rendering contains, as a direct child of the entry's directive, the paragraph
+   whose lines are exactly the doccomment lines behind one indentation unit, in order *)
+Theorem canonical_doc_lines_in_output : forall trigger sfn smac ind L c st st',
+  forallb is_sptab' ind = true -> L <> [] -> Forall (fun l => ~ In nl l) L ->
+  enter_documented trigger sfn smac (join [nl] (canon_lines ind L)) c st = Ok st' ->
+  length (documented st') <> length (documented st) ->
+  exists e, last_opt (documented st') = Some e
+    /\ entry_doc e = join [nl] L ++ [nl]
+    /\ In (Para (entry_doc e)) (dir_body (render_entry e))
+    /\ split_on nl (para_text 1 (entry_doc e)) = map (fun l => indent 1 ++ l) (L ++ [[]])
+    /\ (forall hdrs, exists name args opts body pre post,
+          render_entry e = Dir name args opts body
+          /\ elem_text hdrs 0 0 (render_entry e)
+             = pre ++ para_text 1 (entry_doc e) ++ [nl] ++ post).
+Proof.
+  intros trigger sfn smac ind L c st st' Hind Hne HL H Hlen.
+  destruct (enter_documented_doc _ _ _ _ _ _ _ H Hlen) as [e [He Hd]].
+  rewrite (clean_text_canonical ind L Hind HL) in Hd.
+  assert (Hd' : entry_doc e = join [nl] L ++ [nl]) by (destruct L; [contradiction Hne; reflexivity|exact Hd]).
+  assert (Hnz : entry_doc e <> []) by (rewrite Hd'; destruct (join [nl] L); discriminate).
+  exists e. split; [exact He|]. split; [exact Hd'|]. split; [exact (para_in_body e Hnz)|]. split.
+  - rewrite para_text_lines, Hd'. f_equal.
+    assert (E : join [nl] L ++ [nl] = join [nl] (L ++ [[]])).
+    { rewrite join_lines_snoc_empty. destruct L; [contradiction Hne|]; reflexivity. }
+    rewrite E. apply split_on_join; [destruct L; discriminate|].
+    apply Forall_app. split; [exact HL|]. constructor; [intros []|constructor].
+  - intros hdrs. pose proof (para_in_body e Hnz) as Hin.
+    destruct (render_entry e) as [t|fn ft|en it|l x|name args opts body|t b] eqn:Er;
+      try contradiction Hin.
+    cbn [dir_body] in Hin.
+    destruct (child_text_in_dir hdrs 0 0 name args opts body _ Hin) as [pre [post E]].
+    exists name, args, opts, body, pre, post. split; [reflexivity|exact E].
+Qed.
+
+Example canonical_doc_lines_in_output_nonvacuous :
+  let c := {| c_name := s"function"; c_args := [ASingle TIdent (s"f"); ASingle TIdent (s"x")] |} in
+  let d := join [nl] (canon_lines (s"  ") [s"Line 1"; []; s"  code"]) in
+  exists st', enter_documented (s"KW") (fun x => x) (fun x => x) d c agg_init = Ok st'
+    /\ documented st' = [EFunction false (s"f") (s"Line 1" ++ [nl] ++ [nl] ++ s"  code" ++ [nl]) [s"x"] false].
+Proof. eexists. vm_compute. split; reflexivity. Qed.
+
+(* ---- E5: the module doccomment ---- *)
+
+Definition module_open (name : str) : str := s"#[[[ @module " ++ name.
+
+Definition module_lines (name : str) (L : list str) : list str :=
+  module_open name :: map leader_line L ++ [doc_close_line].
+
+Lemma startswith_app : forall p x, startswith p (p ++ x) = true.
+Proof.
+  induction p as [|a p IH]; intros x; [reflexivity|].
+  cbn [app startswith]. rewrite N.eqb_refl. apply IH.
+Qed.
+
+Lemma replace_go_skip : forall old new pre x,
+  replace_go old new (length pre) (pre ++ x) = replace_go old new 0 x.
+Proof.
+  intros old new pre x. induction pre as [|a pre IH]; [reflexivity|].
+  cbn [length app replace_go]. exact IH.
+Qed.
+
+Lemma replace_all_prefix : forall old new x,
+  old <> [] -> replace_all old new (old ++ x) = new ++ replace_all old new x.
+Proof.
+  intros [|a old] new x H; [contradiction H; reflexivity|].
+  unfold replace_all. change ((a :: old) ++ x) with (a :: (old ++ x)).
+  cbn [replace_go]. change (a :: old ++ x) with ((a :: old) ++ x). rewrite startswith_app.
+  replace (length (a :: old) - 1) with (length old) by (cbn [length]; lia).
+  rewrite replace_go_skip. reflexivity.
+Qed.
+
+Lemma replace_all_absent : forall old new x, contains old x = false -> replace_all old new x = x.
+Proof.
+  intros old new x. unfold replace_all. induction x as [|a r IH]; intros H; [reflexivity|].
+  cbn [contains] in H. apply orb_false_elim in H. destruct H as [H1 H2].
+  cbn [replace_go]. rewrite H1, (IH H2). reflexivity.
+Qed.
+
+Theorem module_entry_canonical : forall name L,
+  ~ In nl name -> strip_ws name = name -> contains module_kw name = false ->
+  Forall (fun l => ~ In nl l) L ->
+  module_entry (join [nl] (module_lines name L))
+  = EModule name (match L with [] => [] | _ :: _ => join [nl] L ++ [nl] end).
+Proof.
+  intros name L Hnl Hstrip Hkw HL. unfold module_entry.
+  assert (Hfree : Forall (fun l => ~ In nl l) (module_lines name L)).
+  { unfold module_lines. constructor.
+    - unfold module_open. apply not_in_app; [|exact Hnl].
+      vm_compute. intros H. repeat (destruct H as [H|H]; [discriminate H|]). exact H.
+    - apply Forall_app. split.
+      + induction HL as [|l L' Hl HL' IH]; [constructor|]. cbn [map]. constructor; [|exact IH].
+        apply leader_line_free. exact Hl.
+      + constructor; [|constructor].
+        vm_compute. intros H. repeat (destruct H as [H|H]; [discriminate H|]). exact H. }
+  unfold clean_doc_text. rewrite split_on_join; [|unfold module_lines; discriminate|exact Hfree].
+  unfold module_lines.
+  assert (Hc : clean_doc_lines (module_open name :: map leader_line L ++ [doc_close_line])
+               = let doc := join [nl] ((s"@module " ++ name) :: L ++ [[]]) in
+                 match doc with a :: r => if (a =? 10)%N then r else doc | [] => [] end).
+  { exact (clean_doc_lines_frame (module_open name) [] L eq_refl). }
+  rewrite Hc. clear Hc. cbv zeta.
+  change ((s"@module " ++ name) :: L ++ [[]]) with ((s"@module " ++ name) :: (L ++ [[]])).
+  assert (Hj : join [nl] ((s"@module " ++ name) :: (L ++ [[]]))
+               = 64%N :: (s"module " ++ name) ++ [nl] ++ join [nl] (L ++ [[]])).
+  { destruct (L ++ [[]]) as [|x r] eqn:E; [destruct L; discriminate E|]. reflexivity. }
+  rewrite Hj. change (64 =? 10)%N with false. cbn iota. rewrite <- Hj.
+  rewrite split_on_join.
+  - cbn [tl]. rewrite join_lines_snoc_empty. f_equal.
+    change (s"@module " ++ name) with (module_kw ++ (sp :: name)).
+    rewrite replace_all_prefix by discriminate. cbn [app].
+    rewrite replace_all_absent.
+    + unfold strip_ws. cbn [drop_while]. change (py_isspace sp) with true. cbn iota. exact Hstrip.
+    + cbn [contains]. rewrite Hkw. reflexivity.
+  - discriminate.
+  - constructor.
+    + apply not_in_app; [|exact Hnl].
+      vm_compute. intros H. repeat (destruct H as [H|H]; [discriminate H|]). exact H.
+    + apply Forall_app. split; [exact HL|]. constructor; [intros []|constructor].
+Qed.
+
+Example module_entry_canonical_nonvacuous :
+  ~ In nl (s"my.mod") /\ strip_ws (s"my.mod") = s"my.mod" /\ contains module_kw (s"my.mod") = false
+  /\ join [nl] (module_lines (s"my.mod") [s"hello"; []; s" x"])
+     = s"#[[[ @module my.mod" ++ [nl] ++ s"# hello" ++ [nl] ++ s"#" ++ [nl] ++ s"#  x" ++ [nl] ++ s"#]]"
+  /\ module_entry (join [nl] (module_lines (s"my.mod") [s"hello"; []; s" x"]))
+     = EModule (s"my.mod") (s"hello" ++ [nl] ++ [nl] ++ s" x" ++ [nl]).
+Proof.
+  split; [vm_compute; intros H; repeat (destruct H as [H|H]; [discriminate H|]); exact H|].
+  vm_compute. repeat split.
+Qed.
+
+(* the hypotheses on the name matter: the keyword inside the name is deleted, outer
+   white space is stripped *)
+Example module_entry_name_needs_hyps :
+  module_entry (join [nl] (module_lines (s"a@moduleb") [s"x"])) = EModule (s"ab") (s"x" ++ [nl])
+  /\ module_entry (join [nl] (module_lines (s"a ") [s"x"])) = EModule (s"a") (s"x" ++ [nl]).
+Proof. vm_compute. split; reflexivity. Qed.
+
+(* ---- E7: UTF-8 ---- *)
+
+Local Ltac Zify.zify_post_hook ::= Z.div_mod_to_equations.
+
+Section Utf8.
+Local Open Scope N_scope.
+
+Lemma enc_range1 : forall c, c < 128 -> (c <? 128) = true.
+Proof. intros c H. lia. Qed.
+
+Lemma enc_range2 : forall c, 128 <= c -> c < 2048 ->
+  (192 + c / 64 <? 128) = false
+  /\ ((194 <=? 192 + c / 64) && (192 + c / 64 <=? 223)) = true
+  /\ is_cont (128 + c mod 64) = true
+  /\ (192 + c / 64 - 192) * 64 + cont_bits (128 + c mod 64) = c.
+Proof. intros c H1 H2. unfold is_cont, cont_bits. repeat split; lia. Qed.
+
+Lemma enc_range3 : forall c, 2048 <= c -> c < 65536 -> (c < 55296 \/ 57343 < c) ->
+  let b0 := 224 + c / 4096 in
+  let b1 := 128 + (c / 64) mod 64 in
+  let b2 := 128 + c mod 64 in
+  (b0 <? 128) = false
+  /\ ((194 <=? b0) && (b0 <=? 223)) = false
+  /\ ((224 <=? b0) && (b0 <=? 239)) = true
+  /\ (((if b0 =? 224 then 160 else 128) <=? b1) && (b1 <=? (if b0 =? 237 then 159 else 191))) = true
+  /\ is_cont b2 = true
+  /\ (b0 - 224) * 4096 + cont_bits b1 * 64 + cont_bits b2 = c.
+Proof.
+  intros c H1 H2 H3 b0 b1 b2. unfold is_cont, cont_bits. subst b0 b1 b2.
+  split; [lia|]. split; [lia|]. split; [lia|]. split.
+  - destruct (N.eqb_spec (224 + c / 4096) 224) as [E|E];
+      destruct (N.eqb_spec (224 + c / 4096) 237) as [E'|E']; lia.
+  - split; lia.
+Qed.
+
+Lemma enc_range4 : forall c, 65536 <= c -> c < 1114112 ->
+  let b0 := 240 + c / 262144 in
+  let b1 := 128 + (c / 4096) mod 64 in
+  let b2 := 128 + (c / 64) mod 64 in
+  let b3 := 128 + c mod 64 in
+  (b0 <? 128) = false
+  /\ ((194 <=? b0) && (b0 <=? 223)) = false
+  /\ ((224 <=? b0) && (b0 <=? 239)) = false
+  /\ ((240 <=? b0) && (b0 <=? 244)) = true
+  /\ (((if b0 =? 240 then 144 else 128) <=? b1) && (b1 <=? (if b0 =? 244 then 143 else 191))) = true
+  /\ is_cont b2 = true /\ is_cont b3 = true
+  /\ (b0 - 240) * 262144 + cont_bits b1 * 4096 + cont_bits b2 * 64 + cont_bits b3 = c.
+Proof.
+  intros c H1 H2 b0 b1 b2 b3. unfold is_cont, cont_bits. subst b0 b1 b2 b3.
+  split; [lia|]. split; [lia|]. split; [lia|]. split; [lia|]. split.
+  - destruct (N.eqb_spec (240 + c / 262144) 240) as [E|E];
+      destruct (N.eqb_spec (240 + c / 262144) 244) as [E'|E']; lia.
+  - split; [lia|]. split; lia.
+Qed.
+
+Lemma decode_encode_char : forall c rest,
+  is_scalar c = true ->
+  utf8_decode (utf8_encode_char c ++ rest) = option_map (cons c) (utf8_decode rest).
+Proof.
+  intros c rest Hs. unfold is_scalar in Hs. unfold utf8_encode_char.
+  destruct (N.ltb_spec c 128) as [L1|L1].
+  - cbn [app utf8_decode]. rewrite (enc_range1 c L1). reflexivity.
+  - destruct (N.ltb_spec c 2048) as [L2|L2].
+    + destruct (enc_range2 c L1 L2) as [A [B [C D]]].
+      cbn [app utf8_decode]. rewrite A, B, C, D. reflexivity.
+    + destruct (N.ltb_spec c 65536) as [L3|L3].
+      * assert (Hsur : c < 55296 \/ 57343 < c) by lia.
+        destruct (enc_range3 c L2 L3 Hsur) as [A [B [C [D [E F]]]]].
+        cbn [app utf8_decode]. rewrite A, B, C. cbv zeta. rewrite D, E, F. reflexivity.
+      * assert (L4 : c < 1114112) by lia.
+        destruct (enc_range4 c L3 L4) as [A [B [C [D [E [F [G K]]]]]]].
+        cbn [app utf8_decode]. rewrite A, B, C, D. cbv zeta. rewrite E, F, G, K. reflexivity.
+Qed.
+
+Theorem utf8_roundtrip : forall x,
+  forallb is_scalar x = true -> utf8_decode (utf8_encode x) = Some x.
+Proof.
+  induction x as [|c x IH]; intros H; [reflexivity|].
+  cbn [forallb] in H. apply andb_prop in H. destruct H as [H1 H2].
+  unfold utf8_encode. cbn [flat_map]. rewrite (decode_encode_char c _ H1).
+  change (flat_map utf8_encode_char x) with (utf8_encode x). rewrite (IH H2). reflexivity.
+Qed.
+
+Lemma decode_source_cases : forall bs,
+  (exists r, bs = 239 :: 187 :: 191 :: r /\ decode_source bs = utf8_decode r)
+  \/ decode_source bs = utf8_decode bs.
+Proof.
+  intros bs. unfold decode_source.
+  destruct bs as [|b0 bs]; [right; reflexivity|].
+  destruct b0 as [|p]; [right; reflexivity|].
+  do 8 (try (destruct p as [p|p|]; try (right; reflexivity))).
+  destruct bs as [|b1 bs]; [right; reflexivity|].
+  destruct b1 as [|p]; [right; reflexivity|].
+  do 8 (try (destruct p as [p|p|]; try (right; reflexivity))).
+  destruct bs as [|b2 bs]; [right; reflexivity|].
+  destruct b2 as [|p]; [right; reflexivity|].
+  do 8 (try (destruct p as [p|p|]; try (right; reflexivity))).
+  left. exists bs. split; reflexivity.
+Qed.
+
+Lemma decode_bom : forall r,
+  utf8_decode (239 :: 187 :: 191 :: r) = option_map (cons 65279) (utf8_decode r).
+Proof. intros r. reflexivity. Qed.
+
+Definition no_leading_bom (x : str) : bool :=
+  match x with c :: _ => negb (c =? 65279) | [] => true end.
+
+(* without a byte-order mark the source text is decoded as it was encoded *)
+Theorem decode_source_roundtrip : forall x,
+  forallb is_scalar x = true -> no_leading_bom x = true ->
+  decode_source (utf8_encode x) = Some x.
+Proof.
+  intros x Hs Hb. destruct (decode_source_cases (utf8_encode x)) as [[r [E _]]|E].
+  - exfalso. pose proof (utf8_roundtrip x Hs) as R. rewrite E, decode_bom in R.
+    destruct (utf8_decode r) as [y|]; [|discriminate R]. injection R as R. subst x.
+    discriminate Hb.
+  - rewrite E. apply utf8_roundtrip. exact Hs.
+Qed.
+
+(* exactly one byte-order mark in front is dropped *)
+Theorem decode_source_bom : forall x,
+  forallb is_scalar x = true ->
+  decode_source (239 :: 187 :: 191 :: utf8_encode x) = Some x.
+Proof. intros x Hs. change (decode_source (239 :: 187 :: 191 :: utf8_encode x)) with (utf8_decode (utf8_encode x)). apply utf8_roundtrip. exact Hs. Qed.
+
+End Utf8.
+
+Example utf8_roundtrip_nonvacuous :
+  let x := [65; 233; 8364; 55295; 57344; 65279; 65536; 128512; 1114111; 127; 128; 2047; 2048]%N in
+  forallb is_scalar x = true
+  /\ utf8_encode [233; 8364; 128512]%N = [195; 169; 226; 130; 172; 240; 159; 152; 128]%N
+  /\ decode_source (utf8_encode x) = Some x.
+Proof. vm_compute. repeat split. Qed.
+
+(* a lone surrogate is not a scalar value and does not survive *)
+Example utf8_surrogate_refuted :
+  is_scalar 55296%N = false /\ utf8_decode (utf8_encode [55296%N]) = None.
+Proof. vm_compute. split; reflexivity. Qed.
+
+(* a text starting with U+FEFF loses that first character: the mark is dropped once *)
+Example decode_source_leading_bom :
+  decode_source (utf8_encode [65279; 97]%N) = Some [97%N].
+Proof. vm_compute. reflexivity. Qed.
+
+(* ==== MAIN THEOREMS ====
+   clean_canonical clean_text_canonical reindent_invariance reindent_invariance_text
+   clean_leaderless clean_leaderless_refuted
+   module_entry_canonical
+   doc_in_entry_once doc_in_entry_once_simple para_in_body child_text_in_dir para_text_lines
+   enter_documented_doc process_member_doc process_attr_doc canonical_doc_lines_in_output
+   utf8_roundtrip decode_source_roundtrip decode_source_bom *)
+Print Assumptions clean_canonical.
+Print Assumptions clean_text_canonical.
+Print Assumptions reindent_invariance.
+Print Assumptions reindent_invariance_text.
+Print Assumptions clean_leaderless.
+Print Assumptions clean_leaderless_refuted.
+Print Assumptions module_entry_canonical.
+Print Assumptions doc_in_entry_once.
+Print Assumptions doc_in_entry_once_simple.
+Print Assumptions para_in_body.
+Print Assumptions child_text_in_dir.
+Print Assumptions para_text_lines.
+Print Assumptions enter_documented_doc.
+Print Assumptions process_member_doc.
+Print Assumptions process_attr_doc.
+Print Assumptions canonical_doc_lines_in_output.
+Print Assumptions utf8_roundtrip.
+Print Assumptions decode_source_roundtrip.
+Print Assumptions decode_source_bom.
